@@ -19,7 +19,7 @@ Theorem c02_closure_perfect_link :
   (* the sender's check timer is armed and tested in the call that sends the EOF: a non-positive interval expires at once
      (PerfectLinkClosureProofs.closure_needs_positive_check_interval is the counterexample without this hypothesis) *)
   0 < l_check_ms cs ->
-  (bits = 8 \/ bits = 16 \/ bits = 32) -> 0 <= seq0 < 2 ^ bits -> 1 <= seg ->
+  (bits = 8 \/ bits = 16 \/ bits = 32) -> 0 <= seq0 < 2 ^ bits -> 1 <= seg -> 6 <= derived ->
   (r_cktype rs = CK_CRC32 \/ r_cktype rs = CK_CRC32C \/ r_cktype rs = CK_NULL \/ r_cktype rs = CK_MODULAR) ->
   bytes_ok data = true ->
   (* receiver side: entity cd is the addressed entity and knows the sender; the destination path is a fresh file name
